@@ -302,6 +302,47 @@ def endpoint_task(t, res):
                     res.sample(dict(ctor=cname, shape=[r, c], start=s, end=e, expected="ValueError"), cap=2)
 
 
+def alias_task(t, res):
+    """the ends a maze holds are its own: arrays handed to a constructor and overwritten by the caller afterwards (a reused scratch
+    buffer) must not move the maze's start / end / solution, let alone out of the grid"""
+    from maze_dataset.maze import LatticeMaze, SolvedMaze, TargetedLatticeMaze
+
+    for (r, c) in [(2, 2), (2, 3), (3, 3)]:
+        cl = R.graph_from_bits(r, c, R.trees(r, c)[0])
+        cells = R.cells(r, c)
+        ctors = {
+            "Targeted(np)": lambda s, e, p: TargetedLatticeMaze(connection_list=cl.copy(), start_pos=s, end_pos=e),
+            "Targeted.from_lattice_maze(np)": lambda s, e, p: TargetedLatticeMaze.from_lattice_maze(LatticeMaze(connection_list=cl.copy()), s, e),
+            "Solved(np)": lambda s, e, p: SolvedMaze(connection_list=cl.copy(), solution=p),
+            "Solved.from_lattice_maze(np)": lambda s, e, p: SolvedMaze.from_lattice_maze(LatticeMaze(connection_list=cl.copy()), p),
+            "Solved.from_targeted_lattice_maze": lambda s, e, p: SolvedMaze.from_targeted_lattice_maze(
+                TargetedLatticeMaze(connection_list=cl.copy(), start_pos=s, end_pos=e)),
+        }
+        for s0 in cells:
+            for e0 in (cells[-1], cells[0], s0):
+                for cname, ctor in ctors.items():
+                    res.ev()
+                    s, e = np.array(s0), np.array(e0)
+                    path = np.array(R.all_shortest_paths(R.adjacency(cl), s0, e0)[0])
+                    rd = dict(kind="alias", shape=[r, c], start=s0, end=e0, ctor=cname)
+                    try:
+                        m = ctor(s, e, path)
+                        first = (m.start_pos.tolist(), m.end_pos.tolist(), m.solution.tolist() if hasattr(m, "solution") else None)
+                        twin = ctor(np.array(s0), np.array(e0), path.copy())
+                        s[:] = r + 3
+                        e[:] = -2
+                        path[:] = r + 5
+                        now = (m.start_pos.tolist(), m.end_pos.tolist(), m.solution.tolist() if hasattr(m, "solution") else None)
+                        if now != first:
+                            res.fail(f"C09|endpoint|aliased_to_caller_array|{cname}", f"{cname} on {r}x{c}: after the caller overwrote the arrays it had passed in, the maze holds "
+                                     f"start/end/solution {now} (was {first}): coordinates outside the grid", rd)
+                        elif not (m == twin) or hash(m) != hash(twin):
+                            res.fail(f"C09|endpoint|aliased_to_caller_array|{cname}|eq", f"{cname}: maze no longer equals its equal copy after the caller reused its arrays", rd)
+                    except Exception as ex:  # noqa: BLE001
+                        res.fail(f"C09|endpoint|alias_probe_raises|{cname}|{type(ex).__name__}", f"{cname} on {r}x{c} start={s0} end={e0}: {type(ex).__name__}: {str(ex)[:120]}", rd)
+                    res.nontrivial(("alias", r, c, s0, e0, cname))
+
+
 def replay_endpoint(d, res):
     from maze_dataset.maze import LatticeMaze, SolvedMaze, TargetedLatticeMaze
 
@@ -330,7 +371,9 @@ def replay_endpoint(d, res):
 
 
 def other_task(t, res):
-    if t["what"] == "sets":
+    if t["what"] == "alias":
+        alias_task(t, res)
+    elif t["what"] == "sets":
         sets_and_datasets(t["tier"], res)
     else:
         endpoint_task(t, res)
@@ -342,7 +385,7 @@ def run(ctx):
     step = max(1, n // 32)
     tasks = [dict(tier=ctx.tier, range=(i, min(n, i + step))) for i in range(0, n, step)]
     ctx.pmap("mzcheck.checks.c09", "pair_task", tasks)
-    ctx.pmap("mzcheck.checks.c09", "other_task", [dict(tier=ctx.tier, what="sets"), dict(tier=ctx.tier, what="endpoints")])
+    ctx.pmap("mzcheck.checks.c09", "other_task", [dict(tier=ctx.tier, what="sets"), dict(tier=ctx.tier, what="endpoints"), dict(tier=ctx.tier, what="alias")])
     ctx.pmap("mzcheck.checks.c09", "live_history_task", [dict(si=i, depth=3 if ctx.quick else 4) for i in range(len(_hist_specs()))])
     ctx.coverage.update(family_size=n, ordered_pairs=2 * n * n,
                         live_histories=dict(ops=HIST_OPS, depth=3 if ctx.quick else 4, mazes=len(_hist_specs()), histories=ctx.res.counters.get("live_histories", 0)))
@@ -353,6 +396,13 @@ def run(ctx):
 
 
 def replay(d, res):
+    if d["kind"] == "alias":
+        sub = type(res)()
+        alias_task({}, sub)
+        for f in sub.fails:
+            if f["replay"].get("ctor") == d["ctor"]:
+                res.fail(f["key"], f["what"], f["replay"])
+        return
     if d["kind"] == "live":
         run_live_history(d["si"], list(d["seq"]), res, only_last=True)
         return
